@@ -66,6 +66,14 @@ Proof.
   - rewrite Ef. cbn [bind]. rewrite (rd_ok f n zero) by lia. f_equal. apply Vf. lia.
 Qed.
 
+Lemma tdet_continuant_lemma (t : tridiag) : wfT t -> 1 <= tn t ->
+  tdet t = Ok (continuant t (tn t)) /\
+  continuant t 0 = one /\
+  continuant t 1 = (nth 0 (tmain t) zero * one)%A /\
+  forall k, continuant t (S (S k)) =
+    (nth (S k) (tmain t) zero * continuant t (S k) - nth k (tsub t) zero * nth k (tsup t) zero * continuant t k)%A.
+Proof. intros W Hn. split; [exact (tdet_continuant t W Hn)|]. repeat split. Qed.
+
 Fixpoint prod_n (n : nat) (f : nat -> T) : T :=
   match n with 0 => one | S n' => (prod_n n' f * f n')%A end.
 
